@@ -308,7 +308,7 @@ Section Final.
   Lemma deadline_elsewhere (s : @sys D R) :
     (forall c k h, s_pc s <> Until c k h) -> step feed cfg s Deadline = s.
   Proof.
-    intros H. cbn [step]. destruct (s_pc s) as [r|e|b red k|c k h|t d k] eqn:E; try reflexivity.
+    intros H. cbn [step]. destruct (s_pc s) as [r|e|b red k|c k h|t d k|qb qk] eqn:E; try reflexivity.
     exfalso. exact (H c k h eq_refl).
   Qed.
 
@@ -321,7 +321,7 @@ Section Final.
 
   Lemma op_at_finished (s : @sys D R) : finished (s_pc s) -> step feed cfg s Op = s.
   Proof.
-    intros H. destruct (s_pc s) as [r|e|b red k|c k h|t d k] eqn:E; cbn [finished] in H; try contradiction.
+    intros H. destruct (s_pc s) as [r|e|b red k|c k h|t d k|qb qk] eqn:E; cbn [finished] in H; try contradiction.
     - exact (op_at_ret s r E).
     - exact (op_at_fail s e E).
   Qed.
@@ -344,7 +344,7 @@ Section Final.
       destruct (normalize_chunk (firstn (Nat.max 1 n) (b0 :: p0))) as [|b1 ch]; [exact Hnil|].
       eexists. reflexivity.
     - rewrite (op_at_finished s H). repeat split; try reflexivity; exact Hnil.
-    - cbn [step]. destruct (s_pc s) as [r|e|b red k|c k h|t d k] eqn:E; cbn [finished] in H; try contradiction;
+    - cbn [step]. destruct (s_pc s) as [r|e|b red k|c k h|t d k|qb qk] eqn:E; cbn [finished] in H; try contradiction;
         (repeat split; try reflexivity; try exact E; exact Hnil).
     - cbn [step s_pc s_dev s_wlog s_notes s_acc s_queue]. repeat split; try reflexivity; exact Hnil.
     - cbn [step]. destruct (s_reader s); cbn [s_pc s_dev s_wlog s_notes s_acc s_queue];
